@@ -138,7 +138,7 @@ func checkManagedThread(c *report.Ctx) {
 	var others []string
 	for f := range w {
 		n := an.FuncName(f)
-		if !in(n, T+".SuspendUnsafe", T+".Release", "L/core.NewManagedThread") {
+		if !oneOf(n, T+".SuspendUnsafe", T+".Release", "L/core.NewManagedThread") {
 			others = append(others, n)
 		}
 	}
@@ -168,7 +168,7 @@ func isEffectCall(cal string) bool {
 		}
 	}
 	for _, owner := range []string{"L/core.ExternalAgent.", "L/core.InternalAgent.", "L/core.Runtime."} {
-		if strings.HasPrefix(cal, owner) && in(strings.TrimPrefix(cal, owner), append(agentTransitions, "RestoreReady", "InvocationResponse", "InvocationErrorResponse", "ResponseSent", "RestoreError")...) {
+		if strings.HasPrefix(cal, owner) && oneOf(strings.TrimPrefix(cal, owner), append(agentTransitions, "RestoreReady", "InvocationResponse", "InvocationErrorResponse", "ResponseSent", "RestoreError")...) {
 			return true
 		}
 	}
@@ -273,7 +273,7 @@ func checkTransitionFirst(c *report.Ctx, f *ssa.Function, transitions []string, 
 			return
 		}
 		cal := an.Callee(call)
-		if !isEffectCall(cal) || in(cal, transitions...) {
+		if !isEffectCall(cal) || oneOf(cal, transitions...) {
 			return
 		}
 		if !ord.Reached(ins) {
@@ -402,7 +402,7 @@ func routesOf(c *report.Ctx, f *ssa.Function) []routeInfo {
 	return out
 }
 
-func in2(s string, set ...string) bool { return in(s, set...) }
+func in2(s string, set ...string) bool { return oneOf(s, set...) }
 
 // decodeHandler unwraps   wrapper(wrapper2(NewXHandler(...))).ServeHTTP
 func decodeHandler(v ssa.Value) (ctor string, wrappers []string) {
@@ -484,7 +484,7 @@ func checkRuntimeRoutes(c *report.Ctx) {
 	// every route whose pattern carries a request id is wrapped by the validator
 	for _, r := range routes {
 		if strings.Contains(r.pattern, "{awsrequestid}") {
-			c.Check("R-WHO", "L/rapi.NewRouter/id-route-validated/"+r.method+" "+r.pattern, "a route carrying a request id is validated before its handler runs", in("AwsRequestIDValidator", r.wrappers...), r.pos, 1, "wrappers: %v", r.wrappers)
+			c.Check("R-WHO", "L/rapi.NewRouter/id-route-validated/"+r.method+" "+r.pattern, "a route carrying a request id is validated before its handler runs", oneOf("AwsRequestIDValidator", r.wrappers...), r.pos, 1, "wrappers: %v", r.wrappers)
 		}
 	}
 	checkRequestIDValidator(c)
